@@ -52,6 +52,52 @@ theorem OneByte.read_pending (n : Nat) (s : OneByte) :
     · simp [hb, hn]
     · simp [hb, hn]
 
+/-- the detection byte is the first byte of the client's stream under every chunking,
+    leading empty chunks included, and the conn is left holding exactly the rest -/
+theorem detect_some (cs : Stream) (b : Byte) (rest : Stream) (h : detect cs = some (b, rest)) :
+    cs.flatten = b :: rest.flatten := by
+  unfold detect at h
+  split at h
+  · rename_i b' rest' ht
+    simp at h; obtain ⟨rfl, rfl⟩ := h
+    have := (takeC_flatten _ _ _ _ ht).1
+    simpa using this
+  · simp at h
+
+theorem takeC_none (n : Nat) (cs : Stream) (h : takeC n cs = none) : cs.flatten.length < n := by
+  induction cs generalizing n with
+  | nil =>
+    simp only [takeC] at h
+    split at h
+    · simp at h
+    · simp; omega
+  | cons c cs ih =>
+    simp only [takeC] at h
+    split at h
+    · simp at h
+    · rename_i hlt
+      split at h
+      · simp at h
+      · rename_i hn
+        have := ih _ hn
+        simp only [List.flatten_cons, List.length_append]; omega
+
+/-- the read fails only if the client sent nothing at all -/
+theorem detect_none (cs : Stream) (h : detect cs = none) : cs.flatten = [] := by
+  unfold detect at h
+  split at h
+  · simp at h
+  · rename_i hne
+    cases ht : takeC 1 cs with
+    | none =>
+      have := takeC_none 1 cs ht
+      exact List.eq_nil_of_length_eq_zero (by omega)
+    | some p =>
+      obtain ⟨bs, r⟩ := p
+      have hl := (takeC_flatten _ _ _ _ ht).2
+      match bs, hl with
+      | [b], _ => exact absurd ht (hne b r)
+
 theorem OneByte.reads_pending (ns : List Nat) (s : OneByte) :
     (OneByte.reads ns s).1.flatten ++ (OneByte.reads ns s).2.pending = s.pending := by
   induction ns generalizing s with
